@@ -472,7 +472,7 @@ def run(ctx):
   import pymtl3
   quick = ctx.tier == 'quick'
   rng = ctx.rng
-  ndes = 330 if quick else 3000
+  ndes = 280 if quick else 3000
   names = [nm for nm, w, f in INJECTIONS for _ in range(w)]
   cases_bit, cases_faith, meta = [], [], []
   junk = []
